@@ -171,6 +171,7 @@ pub fn zst_ops<const N: usize>(op: u8) {
         t.insert_unique(any(), (), |_| 0);
         assert!(t.len() == 1);
     } else {
+        // (instances of op 5 fix the counts: see harnesses.py)
         assume(st.growth_left > 0);
         t.insert_unique(any(), (), |_| any());
         assert!(t.len() == items + 1);
@@ -191,7 +192,9 @@ pub fn leaked_guard<const N: usize>(which: u8) {
     reset_ledger();
     let h: [u64; K] = any();
     let mut t: HashTable<D> = HashTable::with_capacity(capreq(N));
-    let st = fill::<D, _, N>(hv::raw_of_table(&mut t), Spec { items: SYM, deleted: SYM, kind: InvKind::Full, h: &h, distinct: true, id_is_slot: false, layout: None, concrete_tags: None });
+    // entry() reserves first: concrete counts keep its resize paths out of the way
+    let (ci, cd) = if which == 5 { (3, 0) } else { (SYM, SYM) };
+    let st = fill::<D, _, N>(hv::raw_of_table(&mut t), Spec { items: ci, deleted: cd, kind: InvKind::Full, h: &h, distinct: true, id_is_slot: false, layout: None, concrete_tags: None });
     let k = any_id();
     let steps: usize = any();
     assume(steps <= 2);
